@@ -79,7 +79,7 @@ def _has_body(d):
     return any(c.get("kind") == "CompoundStmt" for c in d.get("inner", []))
 
 
-def find_function(rel, qualname, nparams=None, param_types=None):
+def find_function(rel, qualname, nparams=None, param_types=None, kind=None):
     """the definition (with body) of `qualname` (e.g. 'Phreeqc::k_calc' or 'GetErrorString')"""
     short = qualname.split("::")[-1]
     docs = dump(rel, qualname)
@@ -87,7 +87,8 @@ def find_function(rel, qualname, nparams=None, param_types=None):
     def visit(d):
         k = d.get("kind")
         if k in ("FunctionDecl", "CXXMethodDecl", "CXXConstructorDecl", "CXXDestructorDecl") and d.get("name") == short and _has_body(d):
-            cands.append(d)
+            if kind is None or k == kind:
+                cands.append(d)
         elif k in ("FunctionTemplateDecl", "ClassTemplateSpecializationDecl", "CXXRecordDecl", "NamespaceDecl", "LinkageSpecDecl", "TranslationUnitDecl"):
             for c in d.get("inner", []):
                 visit(c)
